@@ -118,28 +118,44 @@ pub fn extract() {
 /// C17: run the given sources (hex) concurrently in `threads` threads, `rounds` times each, and
 /// print every result; the caller compares with the sequential/isolated results.
 pub fn history(args: &[String]) {
+    // history <threads> <rounds>: protocol lines (id kind rest) from stdin; every thread runs ALL of
+    // them `rounds` times, each from a different starting point, so that builds interleave
+    use std::io::BufRead;
     let threads: usize = args[0].parse().unwrap();
     let rounds: usize = args[1].parse().unwrap();
-    let srcs: Vec<String> = args[2..].iter().map(|h| crate::canon::unhex_str(h)).collect();
-    let srcs = std::sync::Arc::new(srcs);
+    let cases: Vec<(String, String, String)> = std::io::stdin()
+        .lock()
+        .lines()
+        .map(|l| l.unwrap())
+        .filter(|l| !l.trim().is_empty())
+        .map(|l| {
+            let mut it = l.trim_end().splitn(3, ' ');
+            (
+                it.next().unwrap().to_string(),
+                it.next().unwrap_or("").to_string(),
+                it.next().unwrap_or("").to_string(),
+            )
+        })
+        .collect();
+    let cases = std::sync::Arc::new(cases);
     let mut handles = vec![];
     for t in 0..threads {
-        let srcs = srcs.clone();
+        let cases = cases.clone();
         handles.push(std::thread::spawn(move || {
             let mut out = vec![];
             for r in 0..rounds {
-                for k in 0..srcs.len() {
-                    // each thread walks the list from a different start, so builds interleave
-                    let i = (k + t + r) % srcs.len();
-                    out.push((i, crate::canon::build_canon(&srcs[i])));
+                for k in 0..cases.len() {
+                    let i = (k + t * 7 + r * 3) % cases.len();
+                    let (id, kind, rest) = &cases[i];
+                    out.push((id.clone(), crate::canon::dispatch(kind, rest)));
                 }
             }
             out
         }));
     }
     for (t, h) in handles.into_iter().enumerate() {
-        for (i, r) in h.join().unwrap() {
-            println!("T{} {} {}", t, i, r);
+        for (id, r) in h.join().unwrap() {
+            println!("T{} {} {}", t, id, r);
         }
     }
 }
